@@ -236,6 +236,39 @@ def run(ctx):
         chk.ob("C17.c", al[0].path, ok, "Allowlist admits a label iff its name is listed" if ok else "Allowlist does not test label.key() against its list", al[0].loc())
     else:
         chk.unrecognised("C17.c", "<anchor> Allowlist::should_include_label", f"found {len(al)}")
+    from props.common import collected_unchanged
+
+    an = [f for f in t.fns if f.name == "new" and f.j.get("impl_self", "").endswith("label_filter::Allowlist")]
+    if len(an) == 1:
+        r = strip_sym(Sym(an[0]).local(0))
+        ok, why = (False, "does not build the list from its parameter")
+        if r[0] == "agg" and len(r[3]) == 1:
+            ok, why = collected_unchanged(t, r[3][0], 0)
+        chk.ob("C17.c", an[0].path, ok, "the allow-list holds the configured names as given" if ok else f"Allowlist::new does not keep the configured names as given ({why}): a listed field is not admitted under its own name", an[0].loc())
+    else:
+        chk.unrecognised("C17.c", "<anchor> Allowlist::new", f"found {len(an)}")
+    # the pooled label maps come back empty: whatever resets a map before it is handed out again clears it on every path
+    pools = [(f, c) for f in t.fns if "::tests::" not in f.path for c in f.body.calls() if "LinearObjectPool" in (c.resolved or "") and (c.resolved or "").endswith("::new") and len(c.args) == 2]
+    if len(pools) == 1:
+        f, c = pools[0]
+        rs = strip_sym(arg_syms(c)[1])
+        okr, whyr = False, f"reset is {sym_str(rs)[:60]}"
+        if rs[:2] == ("const", "fn"):
+            body = next((g for g in (getattr(t, "raw_fns", None) or t.fns) if g.path == rs[2] or g.path == strip_generics(rs[2])), None)
+            if body is None:
+                okr = strip_generics(rs[2]).split("::")[-1] == "clear" and "indexmap" in rs[2]
+            else:
+                rs = ("agg", "closure", None, (), (), body.path)
+        if rs[0] == "agg" and rs[1] == "closure":
+            cf = next((g for g in (list(getattr(t, "raw_fns", None) or []) + list(t.fns)) if g.path == rs[5]), None)
+            if cf is not None:
+                cl = [x for x in cf.body.calls() if callee_method_name(x) == "clear" and "indexmap" in (x.resolved or "") and is_param(_root_arg(Sym(cf).operand(x.args[0])), cf.body.argc - 1)]
+                skip = [r_ for r_ in cf.body.return_blocks() if not cf.body.blocks[r_].get("cleanup") and r_ in cf.body.reachable(0, cut={x.bb for x in cl})]
+                okr = bool(cl) and not skip
+                whyr = "some path hands the map back without clearing it" if cl else "the reset function never clears the map"
+        chk.ob("C17.a", f"{f.path} [pooled maps are reset]", okr, "a map returned to the pool is cleared before it is handed out again" if okr else f"a pooled label map can be handed out again with a dead span's labels still in it ({whyr}): an unrelated span on any thread starts with them", c.loc(), nontrivial=False)
+    else:
+        chk.unrecognised("C17.a", "<anchor> LinearObjectPool::new", f"found {len(pools)} pool constructions")
 
 
 def _root_arg(s):
